@@ -26,6 +26,8 @@
 //!     and binders) in `match`; constructors `Some(e)`, `None`, `Ok(e)`, `Err(e)`; `Result<T, E>` ↦ `Except E T`
 //!   * `let x = …;` that shadows an immutable `let x` (not before a loop); `#[cfg(unix)]` on a `let`
 //!   * an `async fn` only when the spec's signature starts with `async ` (every `.await` through the name map)
+//!   * `let x = e?;` and `e?;` at function level (`match e with | .error err => .error err | .ok x => …`),
+//!     `opt.ok_or(err)`
 //!   * logging macros `debug! trace! info! warn! error!` are skipped
 //!   * method calls / field accesses / casts only through the per-function NAME MAP below
 //!     (whole expression, compared after removing white space) or METHOD MAP
@@ -498,6 +500,72 @@ const SPECS: &[Spec] = &[
                the checked shift of `Input/Checked.lean`: `2^n` for `n < 128`, else `2^128 - 1`); `saturating_sub` on `u8` \
                is `Nat` subtraction; the whole shift expression is compared verbatim.",
     },
+    Spec {
+        id: "C15",
+        file: "src/server/taproxy.rs",
+        ty: "TrustAnchorProxy",
+        method: "process_signer_response",
+        lean: "TrustAnchorProxy.process_signer_response",
+        sig: "&self,response:TrustAnchorSignedResponse->KrillResult<Vec<TrustAnchorProxyEvent>>",
+        binders: "{ν σ ε α : Type} [DecidableEq ν] (open_signer_request : Option ν) (self_signer : Option σ) (response_nonce : ν) \
+                  (validate : σ → Except ε Unit) (err_no_request err_nonce_mismatch err_no_signer : ε) (accepted : α)",
+        args: "open_signer_request self_signer response_nonce validate err_no_request err_nonce_mismatch err_no_signer accepted",
+        ret: "Except ε α",
+        num: Num::Nat,
+        names: &[
+            ("self.open_signer_request.as_ref()", "open_signer_request"),
+            ("Error::TaProxyHasNoRequest", "err_no_request"),
+            ("response.content().nonce", "response_nonce"),
+            (
+                "Error::TaProxyRequestNonceMismatch(response.into_content().nonce,open_request_nonce.clone(),)",
+                "err_nonce_mismatch",
+            ),
+            ("&self.signer", "self_signer"),
+            ("response.validate(&signer.id)", "(validate signer)"),
+            ("vec![TrustAnchorProxyEvent::SignerResponseReceived(response,)]", "accepted"),
+            ("Error::TaProxyHasNoSigner", "err_no_signer"),
+        ],
+        methods: &[],
+        state_ty: &[],
+        elem_ty: "",
+        enums: &[],
+        structs: &[],
+        types: &[],
+        opaque_lets: &[],
+        effects: &[],
+        wrapper: None,
+        note: "nonces `ν`, the associated signer `σ`, errors `ε` and the accepted event list `α` are abstract; \
+               `response.validate(&signer.id)` (CMS signature check against the associated signer's identity key) is the \
+               parameter `validate`; the three errors and the single accepted event \
+               `SignerResponseReceived(response)` are parameters; `Result<T, E>` ↦ `Except E T`.",
+    },
+    Spec {
+        id: "C15",
+        file: "src/server/taproxy.rs",
+        ty: "TrustAnchorProxy",
+        method: "process_make_signer_request",
+        lean: "TrustAnchorProxy.process_make_signer_request",
+        sig: "&self->KrillResult<Vec<TrustAnchorProxyEvent>>",
+        binders: "{ν ε α : Type} (open_signer_request : Option ν) (err_has_request : ε) (made : α)",
+        args: "open_signer_request err_has_request made",
+        ret: "Except ε α",
+        num: Num::Nat,
+        names: &[
+            ("self.open_signer_request", "open_signer_request"),
+            ("Error::TaProxyHasRequest", "err_has_request"),
+            ("vec![TrustAnchorProxyEvent::SignerRequestMade(Nonce::new())]", "made"),
+        ],
+        methods: &[],
+        state_ty: &[],
+        elem_ty: "",
+        enums: &[],
+        structs: &[],
+        types: &[],
+        opaque_lets: &[],
+        effects: &[],
+        wrapper: None,
+        note: "the event `SignerRequestMade(Nonce::new())` (fresh random nonce) is the parameter `made`.",
+    },
 ];
 
 type R = Result<String, String>;
@@ -662,6 +730,11 @@ impl<'a> Tr<'a> {
                     ("min", [a]) => Ok(format!("(min {} {})", self.atom(&m.receiver, ind)?, self.atom(a, ind)?)),
                     ("max", [a]) => Ok(format!("(max {} {})", self.atom(&m.receiver, ind)?, self.atom(a, ind)?)),
                     ("into", []) => self.expr(&m.receiver, ind),
+                    ("ok_or", [a]) => Ok(format!(
+                        "(match {} with | some v_q => Except.ok v_q | none => Except.error {})",
+                        self.atom(&m.receiver, ind)?,
+                        self.atom(a, ind)?
+                    )),
                     ("is_none", []) => Ok(format!("{}.isNone", self.atom(&m.receiver, ind)?)),
                     ("is_some", []) => Ok(format!("{}.isSome", self.atom(&m.receiver, ind)?)),
                     _ => Err(format!("method call `{c}` (not in the method map)")),
@@ -968,6 +1041,20 @@ impl<'a> Tr<'a> {
                 if name == "tail" {
                     return Err("local named `tail` (reserved by the loop translation)".into());
                 }
+                if let syn::Expr::Try(t) = &*init.expr {
+                    // `let x = e?;` ↦ `match e with | .error err => .error err | .ok x => rest`
+                    if mutable || self.seen_loop || self.in_loop || ctl != Ctl::Fn {
+                        return Err(format!("`let {name} = …?` that is mutable, in a loop function or inside a value block"));
+                    }
+                    let scrut = self.expr(&t.expr, ind + 2)?;
+                    self.locals.push((name.clone(), false));
+                    let r = self.seq(rest, ctl, ind + 4)?;
+                    return Ok(format!(
+                        "{p}match {scrut} with\n{p}| Except.error err_q => Except.error err_q\n{p}| Except.ok {} =>\n{r}",
+                        lean_ident(&name),
+                        p = pad(ind)
+                    ));
+                }
                 let (nl, no) = (self.locals.len(), self.opaque.len());
                 let v = match self.expr(&init.expr, ind + 2) {
                     Ok(v) => v,
@@ -1154,6 +1241,15 @@ impl<'a> Tr<'a> {
             E::Block(b) if b.label.is_none() && matches!(rest.first(), Some(Item::Bind(_))) => {
                 // the block's locals stay in scope (shadowing is rejected anyway)
                 self.seq(&Self::block_items(&b.block, rest), ctl, ind)
+            }
+            E::Try(t) if has_semi && !rest.is_empty() => {
+                // `e?;` ↦ `match e with | .error err => .error err | .ok _ => rest`
+                if self.seen_loop || self.in_loop || ctl != Ctl::Fn {
+                    return Err(format!("`{c};` in a loop function or inside a value block"));
+                }
+                let scrut = self.expr(&t.expr, ind + 2)?;
+                let r = self.seq(rest, ctl, ind + 4)?;
+                Ok(format!("{p}match {scrut} with\n{p}| Except.error err_q => Except.error err_q\n{p}| Except.ok _ =>\n{r}", p = pad(ind)))
             }
             E::Return(r) => {
                 if ctl == Ctl::Value {
